@@ -700,10 +700,24 @@ fn close_during_first_add(rounds: u64, tot: &mut Tot) {
                 break;
             }
         }
-        close_caught(&h);
+        // close() runs on a thread of its own: should it wait for the add_signal in progress (it need not), that one is
+        // released after 300 ms so that both can finish
+        let hc = h.clone();
+        let closed = Arc::new(AtomicBool::new(false));
+        let c2 = closed.clone();
+        let jc = std::thread::spawn(move || {
+            crate::set_thread(7, class::KILLER);
+            close_caught(&hc);
+            c2.store(true, Ordering::SeqCst);
+        });
+        let tc = crate::now_ms();
+        while !closed.load(Ordering::SeqCst) && crate::now_ms() - tc < 300 {
+            std::thread::yield_now();
+        }
         director::rule_off(site::IT_ADD_REGISTERED);
         director::open_gate(2);
         let _ = j.join();
+        let _ = jc.join();
         director::close_gate(2);
         if reached {
             tot.paused_closer += 1;
